@@ -165,6 +165,8 @@ func genR(r *vlib.R, q aQ, cfg deployCfg, proto string, target int, jitter int) 
 	u := aR{mode: 'e'}
 	if r.Chance(1, 30) {
 		u.mode = 'n'
+	} else if r.Chance(1, 25) {
+		u.mode = 'p'
 	}
 	switch r.Intn(10) {
 	case 0:
@@ -295,6 +297,30 @@ func genR(r *vlib.R, q aQ, cfg deployCfg, proto string, target int, jitter int) 
 	return u
 }
 
+// packedBodyLen: the length of the packed response without its OPT — what the
+// byte path is handed (Pack compresses differently from Len's estimate, so
+// this is measured, not summed).
+func packedBodyLen(q aQ, u aR) int {
+	req := new(dns.Msg)
+	if err := req.Unpack(rawQuery(q)); err != nil {
+		return 0
+	}
+	up := buildUpstream(u, req)
+	var extra []dns.RR
+	for _, rr := range up.Extra {
+		if _, ok := rr.(*dns.OPT); !ok {
+			extra = append(extra, rr)
+		}
+	}
+	up.Extra = extra
+	up.Compress = true
+	b, err := up.Pack()
+	if err != nil {
+		return 0
+	}
+	return len(b)
+}
+
 func protoPick(r *vlib.R) string {
 	return vlib.Pick(r, []string{"udp", "udp", "udp", "tcp", "tcp", "doh", "doq"})
 }
@@ -336,51 +362,137 @@ func genAccept(r *vlib.R) string {
 }
 
 // malformed packets for the real listeners
-func genMalformed(r *vlib.R) []byte {
+// badOptions: OPT option lists whose payloads are out of shape in ways a
+// decoder may or may not refuse (whether miekg refuses is the oracle's call).
+func badOptions(r *vlib.R) []aOption {
+	v4 := func(mask, scope byte, n int) []byte { return append([]byte{0, 1, mask, scope}, r.Bytes(n)...) }
+	v6 := func(mask, scope byte, n int) []byte { return append([]byte{0, 2, mask, scope}, r.Bytes(n)...) }
+	var o aOption
+	switch r.Intn(14) {
+	case 0: // scope above the family maximum, everything else in order
+		o = aOption{optECS, v4(24, byte(33+r.Intn(223)), 3)}
+	case 1:
+		o = aOption{optECS, v6(56, byte(129+r.Intn(127)), 7)}
+	case 2: // source prefix above the family maximum
+		o = aOption{optECS, v4(byte(33+r.Intn(100)), 0, 4)}
+	case 3:
+		o = aOption{optECS, v6(byte(129+r.Intn(100)), 0, 16)}
+	case 4: // unknown family
+		o = aOption{optECS, append([]byte{0, byte(3 + r.Intn(200)), 8, 0}, r.Bytes(1)...)}
+	case 5: // family 0 with a prefix
+		o = aOption{optECS, []byte{0, 0, 8, 0, 1}}
+	case 6: // shorter than its fixed part
+		o = aOption{optECS, r.Bytes(r.Intn(4))}
+	case 7: // address longer / shorter than the prefix needs
+		o = aOption{optECS, v4(24, 0, vlib.Pick(r, []int{0, 1, 2, 4, 9}))}
+	case 8:
+		o = aOption{optKeepalive, r.Bytes(vlib.Pick(r, []int{1, 3, 4}))}
+	case 9:
+		o = aOption{optCookie, r.Bytes(vlib.Pick(r, []int{1, 5, 7, 41, 60}))}
+	case 10:
+		o = aOption{optEDE, r.Bytes(r.Intn(2))}
+	case 11: // scope at the maximum exactly (well formed)
+		o = aOption{optECS, v4(24, 32, 3)}
+	case 12:
+		o = aOption{optECS, v6(56, 128, 7)}
+	default: // two cookies
+		return []aOption{{optCookie, r.Bytes(8)}, {optCookie, r.Bytes(8)}}
+	}
+	os := []aOption{o}
+	if r.Chance(1, 3) {
+		os = append(os, aOption{optCookie, r.Bytes(8)})
+	}
+	if r.Chance(1, 4) {
+		os = append([]aOption{{optNSID, nil}}, os...)
+	}
+	return os
+}
+
+// genMalformed: a body class crossed with a header class, over the question
+// of `from` when given (so that the packet may hit a cached answer).
+func genMalformed(r *vlib.R, from *aQ) []byte {
 	q := genQ(r)
+	if from != nil {
+		q.id, q.qlen, q.qtype = from.id, from.qlen, from.qtype
+	}
 	q.opcode = 0
 	q.opt.ver = 0
+	body := r.Intn(11)
+	if body == 10 {
+		q.opt = aOpt{present: true, udp: vlib.Pick(r, []int{512, 1232, 4096}), do: r.Bool(), opts: badOptions(r)}
+	}
 	base := rawQuery(q)
-	setFlags := func(b []byte, fl uint16) { binary.BigEndian.PutUint16(b[2:], fl) }
-	fl := binary.BigEndian.Uint16(base[2:])
-	switch r.Intn(12) {
-	case 0: // a response to nothing
-		setFlags(base, fl|0x8000)
-	case 1: // response bit with a foreign opcode
-		setFlags(base, fl|0x8000|uint16(1+r.Intn(15))<<11)
-	case 2, 3: // foreign opcodes 1..15 over an otherwise fine body
-		setFlags(base, fl&^0x7800|uint16(1+r.Intn(15))<<11)
-	case 4: // no question
+	switch body {
+	case 0, 1: // a fine body
+	case 2: // no question
 		base = base[:12]
 		binary.BigEndian.PutUint16(base[4:], 0)
 		binary.BigEndian.PutUint16(base[10:], 0)
-	case 5: // two questions
+	case 3: // two questions
 		qs := base[12 : 12+q.qlen]
 		nb := append([]byte(nil), base[:12+q.qlen]...)
 		nb = append(nb, qs...)
 		nb = append(nb, base[12+q.qlen:]...)
 		binary.BigEndian.PutUint16(nb[4:], 2)
 		base = nb
-	case 6: // QDCOUNT says one, body is missing
+	case 4: // QDCOUNT says one, body is missing
 		base = base[:12]
 		binary.BigEndian.PutUint16(base[10:], 0)
-	case 7: // section counts that promise records which are not there
+	case 5: // section counts that promise records which are not there
 		binary.BigEndian.PutUint16(base[6+2*r.Intn(2):], uint16(1+r.Intn(3)))
-	case 8: // truncated body
+	case 6: // truncated body
 		if len(base) > 13 {
 			base = base[:13+r.Intn(len(base)-13)]
 		}
-	case 9: // garbage after the header
+	case 7: // garbage after the header
 		base = append(base[:12], r.Bytes(1+r.Intn(40))...)
-	case 10: // too many additionals announced
+	case 8: // too many additionals announced
 		binary.BigEndian.PutUint16(base[10:], uint16(3+r.Intn(4)))
-	case 11: // shorter than a header
-		base = base[:r.Intn(12)]
+	case 9: // an option whose length runs past the OPT
+		if q.opt.present {
+			base = append(base[:len(base)-0], 0, 10, 0, 9, 1, 2)
+			// RDLENGTH now covers a cookie header promising 9 bytes with 2 present
+			off := 12 + q.qlen + 9
+			if off+2 <= len(base) {
+				binary.BigEndian.PutUint16(base[off:], binary.BigEndian.Uint16(base[off:])+6)
+			}
+		}
 	}
+	if len(base) < 4 {
+		return base
+	}
+	fl := binary.BigEndian.Uint16(base[2:])
+	switch r.Intn(12) {
+	case 0, 1, 2, 3: // QUERY
+	case 4, 5, 6: // NOTIFY: the one foreign opcode the header gate lets through
+		fl = fl&^0x7800 | 4<<11
+	case 7, 8: // every other opcode
+		fl = fl&^0x7800 | uint16(vlib.Pick(r, []int{1, 2, 3, 5, 6, 7, 8, 9, 10, 11, 12, 13, 14, 15}))<<11
+	case 9: // a response to nothing
+		fl |= 0x8000
+	case 10: // response bit with some opcode
+		fl = fl&^0x7800 | 0x8000 | uint16(r.Intn(16))<<11
+	case 11: // shorter than a header
+		return base[:r.Intn(12)]
+	}
+	binary.BigEndian.PutUint16(base[2:], fl)
 	return base
 }
 
 const plainR = "R:e:0:R:-:-:-:-"
+
+// decTok: the DNS library's verdict on the packet, written on the op line so
+// that the model can predict the engines' FORMERR for an undecodable body.
+func decTok(pkt []byte) string {
+	if new(dns.Msg).Unpack(pkt) != nil {
+		return "dec=f"
+	}
+	return "dec=t"
+}
+
+func rawOp(entry string, pkt []byte) string {
+	return fmt.Sprintf("srv raw %s %s %s %s", entry, vlib.Hex(pkt), plainR, decTok(pkt))
+}
 
 func gen(r *vlib.R, n int, tier string, emit func(string)) {
 	budget := n
@@ -397,6 +509,28 @@ func gen(r *vlib.R, n int, tier string, emit func(string)) {
 			switch x := r.Intn(20); {
 			case x < 2:
 				emitN("edns set0 " + genQ(r).String())
+			case x < 3:
+				// the byte path: edns WireReady/WriteWire, and what the cache hands it
+				q := genQ(r)
+				q.opcode, q.opt.ver = 0, 0
+				proto := vlib.Pick(r, []string{"udp", "udp", "tcp", "tcp", "doh"})
+				target := 0
+				if proto == "udp" && r.Chance(1, 2) {
+					target = limitOf(q) + vlib.Pick(r, []int{-2, -1, 0, 1, 2, 30})
+				}
+				u := genR(r, q, cfg, proto, target, 0)
+				u.mode = 'e'
+				if u.rcode > 15 {
+					u.rcode = 0
+				}
+				if len(u.ex) > 0 && u.opt.same {
+					u.opt = aOpt{present: true, udp: 1232, opts: genUpstreamOptions(r)}
+				}
+				if r.Bool() {
+					emitN(fmt.Sprintf("edns wirewrite %s %s %d %s %s", vlib.Pick(r, []string{"d", "w"}), proto, packedBodyLen(q, u), q, u))
+				} else {
+					emitN(fmt.Sprintf("edns cachewire %s %s %s", vlib.B(r.Bool()), q, u))
+				}
 			case x < 4:
 				q := genQ(r)
 				q.opcode = 0
@@ -408,6 +542,26 @@ func gen(r *vlib.R, n int, tier string, emit func(string)) {
 				emitN(fmt.Sprintf("edns tomsg %s %s", q, u))
 			case x < 5:
 				emitN(genAccept(r))
+				// Request.ParseWire on a packet: plain, malformed, or with odd options
+				var pkt []byte
+				switch r.Intn(4) {
+				case 0:
+					pq := genQ(r)
+					pq.opcode = 0
+					pkt = rawQuery(pq)
+				case 1:
+					pq := genQ(r)
+					pq.opcode, pq.opt = 0, aOpt{present: true, udp: 1232, do: r.Bool(), opts: badOptions(r)}
+					pkt = rawQuery(pq)
+				default:
+					pkt = genMalformed(r, nil)
+				}
+				if r.Chance(1, 6) && len(pkt) > 12 {
+					pkt[12+r.Intn(len(pkt)-12)] ^= byte(1 << uint(r.Intn(8)))
+				}
+				if len(pkt) > 0 {
+					emitN("edns parsewire " + vlib.Hex(pkt))
+				}
 			case x < 9:
 				// size boundary sweep on udp: the same pair with the payload stepping across the limit
 				q := genQ(r)
@@ -491,12 +645,16 @@ func gen(r *vlib.R, n int, tier string, emit func(string)) {
 		for k := 0; k < per; k++ {
 			entry := vlib.Pick(r, []string{"rawudp", "rawudp", "rawtcp", "inline", "msgdoh", "msgdoq", "http", "sockudp", "sockudp", "socktcp", "socktcp", "sockdoq"})
 			if r.Chance(1, 5) {
-				emit(fmt.Sprintf("srv raw %s %s %s", vlib.Pick(r, []string{"sockudp", "socktcp"}), vlib.Hex(genMalformed(r)), plainR))
+				var from *aQ
+				if len(pool) > 0 && r.Bool() {
+					from = &pool[r.Intn(len(pool))]
+				}
+				emit(rawOp(vlib.Pick(r, []string{"sockudp", "socktcp"}), genMalformed(r, from)))
 				continue
 			}
-			if r.Chance(1, 25) {
+			if r.Chance(1, 12) {
 				// the same malformed stream at the entries that have no header gate of their own
-				emit(fmt.Sprintf("srv raw %s %s %s", vlib.Pick(r, []string{"http", "msgdoh", "msgdoq", "rawudp", "rawtcp", "inline"}), vlib.Hex(genMalformed(r)), plainR))
+				emit(rawOp(vlib.Pick(r, []string{"http", "msgdoh", "msgdoq", "rawudp", "rawudp", "rawtcp", "rawtcp", "inline"}), genMalformed(r, nil)))
 				continue
 			}
 			if r.Chance(1, 10) {
@@ -542,7 +700,9 @@ func gen(r *vlib.R, n int, tier string, emit func(string)) {
 				target = limitOf(q) + vlib.Pick(r, []int{-40, -3, -1, 0, 1, 2, 40, 900, 3000})
 			}
 			u := genR(r, q, cfg, proto, target, 0)
-			u.mode = 'e'
+			if u.mode != 'p' {
+				u.mode = 'e'
+			}
 			emit(fmt.Sprintf("srv q %s %s %s", entry, q, u))
 		}
 		emit("srv stop")
